@@ -42,7 +42,7 @@ func TestColdStart(t *testing.T) {
 	r := vkit.Start("C03")
 	w := r.NewW()
 	w.Guard(map[string]string{"first_call": scenario}, func() { coldFirst(scenario) })
-	for _, tx := range []string{"1.2.3", "v1.2.3", "1.0.0-alpha.1+build.5", "v2.0.0+001", "1.0.0-01", "1.0.0+", "01.0.0", "18446744073709551615.0.0", "18446744073709551616.0.0", "", "v", "1.0.0-a_b", "1.0.0+a_b"} {
+	for _, tx := range []string{"v1.2.3-rc.1+b", "1.2", "1.2.3", "v1.2.3", "1.0.0-alpha.1+build.5", "v2.0.0+001", "1.0.0-01", "1.0.0+", "01.0.0", "18446744073709551615.0.0", "18446744073709551616.0.0", "", "v", "1.0.0-a_b", "1.0.0+a_b"} {
 		judge(Case{Kind: "text", Text: vkit.B(tx)}, w)
 	}
 	for _, v := range []Case{{Kind: "ver", Major: 1, Build: "001"}, {Kind: "ver", Major: 1, Pre: "01"}, {Kind: "ver", Pre: "a.b", Build: "c+d"}, {Kind: "ver", Major: 3, Pre: "rc.1", Build: "x-y"}} {
